@@ -45,6 +45,7 @@ type opJ struct {
 	Keep bool   `json:"keep,omitempty"`
 	P    string `json:"p,omitempty"` // idle before after midcfg
 	V    int    `json:"v,omitempty"` // store: -1 absent, 0 empty string, n>0 foreign id n
+	S    int    `json:"s,omitempty"` // mstate: numeric mesos.TaskState
 }
 
 type inputJ struct {
@@ -125,20 +126,20 @@ func workflow(i, k int) string {
 }
 
 type runner struct {
-	s        *simcore.Sim
-	rec      *vplugin.Recorder
-	taskIdx  map[string]int
-	envs     map[int]uid.ID // environment index -> id (current life only)
-	nextEnv  int
-	callPos  int
-	fresh    int // framework ids handed out by the master so far
-	mu       sync.Mutex
-	silent   bool            // CONFIGURE commands get no answer
-	deaf     map[string]bool // tasks whose KILL gets no answer
-	deafAll  bool
-	runMu    sync.Mutex
+	s          *simcore.Sim
+	rec        *vplugin.Recorder
+	taskIdx    map[string]int
+	envs       map[int]uid.ID // environment index -> id (current life only)
+	nextEnv    int
+	callPos    int
+	fresh      int // framework ids handed out by the master so far
+	mu         sync.Mutex
+	silent     bool            // CONFIGURE commands get no answer
+	deaf       map[string]bool // tasks whose KILL gets no answer
+	deafAll    bool
+	runMu      sync.Mutex
 	pendingRun map[string]bool // launched tasks whose TASK_RUNNING has not been sent yet
-	failNote string
+	failNote   string
 }
 
 func (r *runner) fingerprint() string {
@@ -381,6 +382,15 @@ func (r *runner) apply(i int, op opJ) error {
 		if id := r.taskIdOf(op.T); id != "" {
 			r.s.FailTask(id, mesos.TASK_FAILED)
 		}
+	case "mstate":
+		if id := r.taskIdOf(op.T); id != "" {
+			switch mesos.TaskState(op.S) {
+			case mesos.TASK_STARTING, mesos.TASK_RUNNING, mesos.TASK_KILLING:
+				// (TASK_STAGING is a live state too, but the simulated master leaves staging
+				// tasks out of its reconciliation answers)
+				r.s.SetTaskState(id, mesos.TaskState(op.S))
+			}
+		}
 	case "cleanup":
 		_, _ = r.s.Rpc.CleanupTasks(bg, &pb.CleanupTasksRequest{})
 	case "store":
@@ -564,6 +574,8 @@ func opTerm(o opJ) string {
 		return fmt.Sprintf("ODestroyStuck %d", o.E)
 	case "die":
 		return fmt.Sprintf("ODie %d", o.T)
+	case "mstate":
+		return fmt.Sprintf("OMesosState %d %d", o.T, o.S)
 	case "cleanup":
 		return "OCleanup"
 	case "store":
@@ -630,24 +642,25 @@ func corpus() []inputJ {
 	cr := func(p string, k int) opJ { return opJ{Op: "crash", P: p, K: k} }
 	mk := func(k int) opJ { return opJ{Op: "create", K: k} }
 	return []inputJ{
-		c(mk(1), op("reconnect")),                                  // C18-a witness
-		c(mk(2), opJ{Op: "start", E: 0}, op("reconnect")),          // RUNNING environment, reconnection
-		c(mk(2), cr("idle", 0)),                                    // crash, CONFIGURED
-		c(mk(2), opJ{Op: "start", E: 0}, cr("idle", 0)),            // crash, RUNNING
-		c(cr("before", 2)),                                         // crash before the launch
-		c(cr("after", 2)),                                          // crash after the launch
-		c(cr("midcfg", 2)),                                         // crash in the middle of CONFIGURE
-		c(mk(2), opJ{Op: "stuck", E: 0}, cr("idle", 0)),            // crash in the middle of a teardown
+		c(mk(1), op("reconnect")),                                     // C18-a witness
+		c(mk(2), opJ{Op: "start", E: 0}, op("reconnect")),             // RUNNING environment, reconnection
+		c(mk(2), cr("idle", 0)),                                       // crash, CONFIGURED
+		c(mk(2), opJ{Op: "start", E: 0}, cr("idle", 0)),               // crash, RUNNING
+		c(cr("before", 2)),                                            // crash before the launch
+		c(cr("after", 2)),                                             // crash after the launch
+		c(cr("midcfg", 2)),                                            // crash in the middle of CONFIGURE
+		c(mk(2), opJ{Op: "stuck", E: 0}, cr("idle", 0)),               // crash in the middle of a teardown
 		c(mk(2), opJ{Op: "destroy", E: 0, Keep: true}, cr("idle", 0)), // crash after release, before kill
 		c(mk(1), cr("idle", 0), mk(2), cr("after", 1), op("reconnect")),
 		c(mk(2), opJ{Op: "destroy", E: 0, Keep: true}, op("reconnect")),
 		c(mk(2), opJ{Op: "die", T: 0}, op("reconnect"), opJ{Op: "destroy", E: 0}),
-		c(mk(1), opJ{Op: "store", V: -1}, cr("idle", 0)),           // persisted id lost, then crash
-		c(mk(1), opJ{Op: "store", V: 0}, cr("idle", 0)),            // persisted id emptied
+		c(mk(1), opJ{Op: "store", V: -1}, cr("idle", 0)), // persisted id lost, then crash
+		c(mk(1), opJ{Op: "store", V: 0}, cr("idle", 0)),  // persisted id emptied
 		c(mk(1), opJ{Op: "store", V: 3}, cr("idle", 0), cr("idle", 0)),
 		{Failover: false, Ops: []opJ{op("reconnect"), cr("idle", 0), op("reconnect")}},
 		c(op("reconnect"), cr("idle", 0), op("reconnect"), cr("idle", 0)),
 		c(mk(1), mk(2), opJ{Op: "destroy", E: 0}, op("cleanup"), cr("idle", 0)),
+		c(mk(2), opJ{Op: "mstate", T: 0, S: 8}, opJ{Op: "mstate", T: 1, S: 0}, cr("idle", 0)), // KILLING / STARTING at the master
 	}
 }
 
@@ -700,9 +713,15 @@ func genScript(r *gen.Rand) inputJ {
 				t = r.Intn(tasks + 1)
 			}
 			in.Ops = append(in.Ops, opJ{Op: "die", T: t})
-		case x < 58:
+		case x < 57:
 			in.Ops = append(in.Ops, op("cleanup"))
-		case x < 62 && tamper:
+		case x < 61:
+			t := 0
+			if tasks > 0 {
+				t = r.Intn(tasks)
+			}
+			in.Ops = append(in.Ops, opJ{Op: "mstate", T: t, S: []int{0, 8, 8, 1, 3}[r.Intn(5)]})
+		case x < 65 && tamper:
 			in.Ops = append(in.Ops, opJ{Op: "store", V: r.Range(-1, 2)})
 		case x < 80:
 			in.Ops = append(in.Ops, op("reconnect"))
@@ -869,7 +888,7 @@ func main() {
 		cases = append(cases, gen.Case{Term: caseTerm(in, outs[i].Obs), Kind: kinds[i], Input: in, Obs: outs[i]})
 	}
 	extra := map[string]any{"operations": opHist, "cases_that_did_not_run": failed}
-	if err := gen.WriteCases(o, "C18", "From Verif Require Import Reconcile.", "c18_case", "report18", cases, extra); err != nil {
+	if err := gen.WriteCases(o, "C18", "From Verif Require Import Common Reconcile.", "c18_case", "report18", cases, extra); err != nil {
 		fmt.Fprintln(os.Stderr, err)
 		os.Exit(2)
 	}
